@@ -13,7 +13,7 @@ import re
 
 import sympy
 
-from engine.algebra import LocalDefs
+from engine.algebra import Algebra, LocalDefs
 from engine.bounds import Bounds
 from engine.canon import roles_for
 from engine.cfg import CFG, relations
@@ -455,7 +455,7 @@ def rule_f_range_wrappers(ctx, fns, kind):
         ctx.ob("C04.f-range-wrappers", fid, "ranges-passed-through", ok, c.where(), "the implementation receives the caller's viewgrams and (axial, tangential) ranges slot by slot" if ok else "; ".join(det) or "delegation does not pass four range arguments")
         n += 1
         # nothing else writes the viewgrams (or anything reached through them)
-        from engine.algebra import LocalDefs
+        from engine.algebra import Algebra, LocalDefs
         from engine.sibling import aliases
 
         al = aliases(f, vk, LocalDefs(f))
@@ -463,6 +463,77 @@ def rule_f_range_wrappers(ctx, fns, kind):
         wr = [m for m in wr if not (m.k in ("UnaryOperator", "CXXOperatorCallExpr") and m.op in ("++", "--"))]  # advancing an iterator
         if kind == "forward":
             ctx.ob("C04.f-range-wrappers", fid, "wrapper-writes-nothing", not wr, (wr[0] if wr else c).where(), "only the implementation writes the viewgrams" if not wr else "the wrapper itself modifies the viewgrams (line %d): bins outside the requested sub-range can change" % wr[0].line)
+            n += 1
+    return n
+
+
+def rule_g_producer_covers_consumer(ctx, fns):
+    """On-the-fly ray tracer: `if (proj_Siddon<k>(A, ..., min_ax, MAX, ...)) for (ax = min..max) use A[ax] (and A[ax + 1])`.  The
+    producer call must fill every axial position the consumer loop reads: MAX == max, or max + 1 when A[ax + 1] is read.  Otherwise the
+    last axial position of a requested sub-range gets a stale / missing contribution (sibling call sites disagreeing on this argument
+    is how defect F11 was found)."""
+    n = 0
+    for f in fns:
+        if f.body is None:
+            continue
+        defs = LocalDefs(f)
+        alg = Algebra(f, names=False)
+        k = 0
+        for st in f.walk():
+            if st.k != "IfStmt" or len(st.c) < 2:
+                continue
+            cond = st.c[0].strip()
+            calls = [c for c in cond.walk() if c.is_call() and (c.callee or "").split("::")[-1] == "proj_Siddon"]
+            if len(calls) != 1 or len(calls[0].call_args()) < 10:
+                continue
+            call = calls[0]
+            arr = call.call_args()[0].strip()
+            if arr.k != "DeclRefExpr":
+                continue
+            ad = arr.get("d")
+            loops = [lp for lp in st.c[1].walk() if lp.k == "ForStmt"]
+            if st.c[1].k == "ForStmt":
+                loops = [st.c[1]] + loops
+            cons = None
+            for lp in loops:
+                d = describe(lp, names=False)
+                if d is None:
+                    # loop variable declared outside: for (ax = a; ax <= b; ax++)
+                    init, c2 = lp.c[0].strip(), lp.c[1].strip()
+                    if init.k == "BinaryOperator" and init.op == "=" and c2.k == "BinaryOperator" and c2.op == "<=" and key(init.c[0].strip()) == key(c2.c[0].strip()):
+                        d = {"var": key(init.c[0].strip()), "init": key(init.c[1].strip()), "upper_node": c2.c[1], "init_node": init.c[1]}
+                else:
+                    vd = [m for m in lp.c[0].walk() if m.k == "VarDecl" and m.c][0]
+                    c2 = lp.c[1].strip()
+                    d = {"var": d["var"], "init_node": vd.c[0], "upper_node": c2.c[1] if c2.k == "BinaryOperator" and c2.op == "<=" else None}
+                if d is None or d.get("upper_node") is None:
+                    continue
+                reads = []
+                for m in lp.c[3].walk():
+                    if m.k in ("CXXOperatorCallExpr", "ArraySubscriptExpr") and (m.k == "ArraySubscriptExpr" or m.op == "[]") and len(m.c) == 2 and m.c[0].strip().k == "DeclRefExpr" and m.c[0].strip().get("d") == ad:
+                        reads.append(key(m.c[1].strip()))
+                if reads:
+                    cons = (d, reads, lp)
+                    break
+            k += 1
+            if cons is None:
+                continue
+            d, reads, lp = cons
+            offs = set()
+            okshape = True
+            for r in reads:
+                if r == d["var"]:
+                    offs.add(0)
+                elif r in ("(+ %s 1)" % d["var"], "(+ 1 %s)" % d["var"]):
+                    offs.add(1)
+                else:
+                    okshape = False
+            if not okshape:
+                ctx.unrec(f.qn, "consumer loop at line %d reads the projection array with an index that is not ax or ax + 1" % lp.line)
+                continue
+            lo_ok = sympy.simplify(alg.expr(call.call_args()[8]) - alg.expr(d["init_node"])) == 0
+            hi_ok = sympy.simplify(alg.expr(call.call_args()[9]) - (alg.expr(d["upper_node"]) + max(offs))) == 0
+            ctx.ob("C04.g-producer-covers-consumer", f.qn + "(" + f.sig[:30] + ")", "proj_Siddon@%d" % k, lo_ok and hi_ok, call.where(), "fills axial positions %s..%s, the consumer loop reads up to %s%s" % (key(call.call_args()[8], True), key(call.call_args()[9], True), key(d["upper_node"], True), " + 1" if max(offs) else "") if lo_ok and hi_ok else "the call fills axial positions up to %s but the loop that consumes its result reads up to %s%s: the last position of the range gets a stale or missing contribution" % (key(call.call_args()[9], True), key(d["upper_node"], True), " + 1" if max(offs) else ""))
             n += 1
     return n
 
@@ -494,6 +565,8 @@ def run(ctx):
     rule_d(ctx, [f for f in us[4].functions if f.body is not None])
     nf = rule_f_range_wrappers(ctx, [f for f in us[3].functions if f.body is not None], "forward") + rule_f_range_wrappers(ctx, [f for f in us[4].functions if f.body is not None], "back")
     ctx.require_count("C04.f-range-wrappers", 9)
+    ng = rule_g_producer_covers_consumer(ctx, [f for f in us[5].functions if f.body is not None])
+    ctx.require_count("C04.g-producer-covers-consumer", 12)
     n = rule_e(ctx, [f for f in us[5].functions if f.body is not None])
     if n < 2:
         ctx.fail_broken("tangential sub-range rule matched %d functions (2 confirmed by hand)" % n)
